@@ -233,6 +233,24 @@ def _ident(x):
     return x
 
 
+def _pre(x):
+    """the callable put before an element in the tuple forms tuple_pre / tuple_pp (Lean: `preFn`)"""
+    return x + 10
+
+
+def _post(v):
+    """the callable put after an element in the tuple forms tuple_post / tuple_pp (Lean: `postFn`)"""
+    return ("post", v)
+
+
+def _has_pre(sp):
+    return sp.get("form") in ("tuple_pre", "tuple_pp")
+
+
+def _has_post(sp):
+    return sp.get("form") in ("tuple_post", "tuple_pp")
+
+
 def _wrap(sp, el):
     """present the element to Split in the form named by the case"""
     import lena.core as lc
@@ -244,6 +262,12 @@ def _wrap(sp, el):
         return el
     if form == "tuple":
         return (el,)
+    if form == "tuple_pre":
+        return (_pre, el)
+    if form == "tuple_post":
+        return (el, _post)
+    if form == "tuple_pp":
+        return (_pre, el, _post)
     if k in ("fc", "sum"):
         if form == "seq":
             return lc.FillComputeSeq(el)
@@ -297,18 +321,27 @@ def ref_run(specs, bufsize, flow):
     out = []
     blocks = _blocks(flow, bufsize)
 
-    def fill_block(el, blk):
+    # documented conversion of a tuple: the flow is preprocessed by what stands before the element, the
+    # results are postprocessed by what stands after it (FillComputeSeq / FillRequestSeq / Sequence docstrings)
+    pre = [_pre if _has_pre(sp) else _ident for sp in specs]
+    post = [_post if _has_post(sp) else _ident for sp in specs]
+
+    def fill_block(i, blk):
         for x in blk:
             try:
-                el.fill(x)
+                els[i].fill(pre[i](x))
             except lena.core.LenaStopFill:
                 return True
         return False
 
+    def results(i, gen):
+        return [post[i](v) for v in gen]
+
     def run_seq(i, blk):
+        blk = [pre[i](x) for x in blk]
         if lam[i]:
-            return [els[i](x) for x in blk]
-        return list(els[i].run(iter(blk)))
+            return results(i, [els[i](x) for x in blk])
+        return results(i, els[i].run(iter(blk)))
 
     for blk in blocks:
         for i, el in enumerate(els):
@@ -318,12 +351,12 @@ def ref_run(specs, bufsize, flow):
                 out += list(el())
                 active[i] = False
             elif kinds[i] == "fill_compute":
-                if fill_block(el, blk):
-                    out += list(el.compute())
+                if fill_block(i, blk):
+                    out += results(i, el.compute())
                     active[i] = False
             elif kinds[i] == "fill_request":
-                stopped = fill_block(el, blk)
-                out += list(el.request())
+                stopped = fill_block(i, blk)
+                out += results(i, el.request())
                 if stopped:
                     active[i] = False
             else:
@@ -334,10 +367,10 @@ def ref_run(specs, bufsize, flow):
         if kinds[i] == "source":
             out += list(el())
         elif kinds[i] == "fill_compute":
-            out += list(el.compute())
+            out += results(i, el.compute())
         elif kinds[i] == "fill_request":
             if not blocks:
-                out += list(el.request())
+                out += results(i, el.request())
         else:
             if not blocks:
                 out += run_seq(i, [])
@@ -373,8 +406,9 @@ def _exhaustive_runs(max_len_by_n):
     return cases
 
 
-FORMS = {"src": ["el"], "fc": ["el", "seq", "tuple", "tuple_id"], "fr": ["el", "seq", "tuple", "tuple_id"],
-         "sq": ["el", "seq", "tuple"], "sum": ["el", "seq", "tuple", "tuple_id"]}
+_TUPLE_FORMS = ["tuple", "tuple_pre", "tuple_post", "tuple_pp"]
+FORMS = {"src": ["el"], "fc": ["el", "seq", "tuple_id"] + _TUPLE_FORMS, "fr": ["el", "seq", "tuple_id"] + _TUPLE_FORMS,
+         "sq": ["el", "seq"] + _TUPLE_FORMS, "sum": ["el", "seq", "tuple_id"] + _TUPLE_FORMS}
 SQ_VARIANTS = ["map", "mapEnd", "even", "sumBlock", "dup", "running", "lam"]
 
 
@@ -392,7 +426,7 @@ def _rand_spec(rng, n, kinds=("src", "fc", "fr", "sq", "sum")):
     else:
         sp = {"k": "sum"}
     if k == "sq" and sp["v"] == "lam":
-        sp["form"] = rng.choice(["el", "tuple"])
+        sp["form"] = rng.choice(["el"] + _TUPLE_FORMS)
     else:
         sp["form"] = rng.choice(FORMS[k])
     return sp
@@ -741,7 +775,12 @@ def run_impl(case):
 def _mspec(sp):
     if sp["k"] == "nest":
         return {"k": "nest", "inner": [_mspec(i) for i in sp["inner"]]}
-    return {k: v for k, v in sp.items() if k != "form"}
+    m = {k: v for k, v in sp.items() if k != "form"}
+    if _has_pre(sp):
+        m["pre"] = True
+    if _has_post(sp):
+        m["post"] = True
+    return m
 
 
 def model_requests(case):
@@ -777,9 +816,26 @@ def _cmp_run(specs, r, m, what, flow=None, bufsize=None):
     for i, sp in enumerate(specs):
         if _is_lam(sp):
             continue
-        if r["inv"][i] != m["inv"][i]:
-            return f"{what}: branch {i} was invoked {r['inv'][i]} vs model {m['inv'][i]}"
+        minv = _seen_by_element(sp, m["inv"][i])
+        if r["inv"][i] != minv:
+            return f"{what}: branch {i} was invoked {r['inv'][i]} vs model {minv}"
     return None
+
+
+def _seen_by_element(sp, inv):
+    """the model records what Split passes to the branch; the instrumented element of a tuple with a
+    preprocessing callable logs what reaches it"""
+    if not _has_pre(sp):
+        return inv
+    res = []
+    for ev in inv:
+        if ev[0] == "fill":
+            res.append(["fill", _pre(ev[1]), ev[2]])
+        elif ev[0] == "run":
+            res.append(["run", [_pre(x) for x in ev[1]]])
+        else:
+            res.append(ev)
+    return res
 
 
 def compare(case, res, replies):
@@ -832,6 +888,8 @@ def compare(case, res, replies):
 # the oracle: the property statement on the real code's result
 
 def _tag_of(v):
+    if isinstance(v, list) and len(v) == 2 and v[0] == "post":
+        return _tag_of(v[1])
     return v[0] if isinstance(v, list) and v and isinstance(v[0], int) and not isinstance(v[0], bool) else None
 
 
